@@ -63,6 +63,9 @@ Section Case.
   Definition vcheck (fuel : nat) (inits : list (res vstate * SB)) : verdict (I := list value) :=
     check (vstep d mid) stepB rvstate_eqb eqB out_eqb phash alphabet assume fuel inits.
 
+  Definition vcheck_bfs (fuel : nat) (inits : list (res vstate * SB)) : verdict (I := list value) :=
+    check_bfs (vstep d mid) stepB rvstate_eqb eqB out_eqb phash alphabet assume fuel inits.
+
   Theorem vcheck_sound fuel inits :
     is_ok (vcheck fuel inits) = true ->
     forall a b, In (a, b) inits ->
